@@ -794,8 +794,9 @@ TIMER_INV = ["AtMostOneOutcome", "CompletedOnlyIfAnswered", "ClearedOnlyIfAppCle
 
 def c18(run):
     run.assumptions = [
-        "command API timers hosted one per Command and inspected directly; responses carry the kind and id the "
-        "protocol requires (a mismatched response is a documented developer error that panics)",
+        "command API timers hosted one per Command and inspected directly; responses carry the kind the protocol "
+        "requires; an answer that names another timer is part of the model (the task stops with a panic and reports "
+        "nothing) and of the schedules for two and more timers",
         "the legacy capability API (Time::notify_after(cb), Time::clear(id)) is modelled separately in "
         "LegacyTimer.tla and executed under Core; D11 (clear after the outcome leaves the id in the process-wide "
         "set) is a recorded finding"]
